@@ -61,6 +61,15 @@ impl TinyFs {
         v.truncate(FILE_SIZE);
         v
     }
+    fn content_of_tag(tag: &str) -> Vec<u8> {
+        let t = format!("{tag}:");
+        let mut v = Vec::with_capacity(FILE_SIZE);
+        while v.len() < FILE_SIZE && !t.is_empty() {
+            v.extend_from_slice(t.as_bytes());
+        }
+        v.truncate(FILE_SIZE);
+        v
+    }
     fn pause(&self) {
         let d = self.delay_us.load(Ordering::Relaxed);
         if d > 0 {
@@ -148,7 +157,9 @@ fn thread_state(tid: i64) -> (char, i64) {
 
 const SYS_EPOLL: [i64; 3] = [232, 281, 441]; // epoll_wait, epoll_pwait, epoll_pwait2
 
-/// the thread sleeps inside one of the given system calls on three samples in a row
+/// the thread sleeps inside one of the given system calls on three samples in a row. (A thread asleep inside
+/// epoll_wait has nothing ready: had an event been pending at entry the call would not sleep, and a later event makes
+/// the thread runnable before the write / queueing that caused it returns.)
 fn sleeping_in(tid: i64, calls: &[i64], allow_d: bool) -> bool {
     for i in 0..3 {
         let (s, nr) = thread_state(tid);
@@ -157,7 +168,7 @@ fn sleeping_in(tid: i64, calls: &[i64], allow_d: bool) -> bool {
             return false;
         }
         if i < 2 {
-            std::thread::sleep(Duration::from_millis(8));
+            std::thread::sleep(Duration::from_millis(1));
         }
     }
     true
@@ -173,7 +184,7 @@ fn waiting_for_fuse(tid: i64) -> bool {
             return false;
         }
         if i < 2 {
-            std::thread::sleep(Duration::from_millis(8));
+            std::thread::sleep(Duration::from_millis(1));
         }
     }
     true
@@ -253,9 +264,30 @@ fn ensure_ctl(dir: &Path) {
     *CTL_DIR.lock().unwrap() = Some(ctl);
 }
 
-fn abort_conn(minor: u32) -> bool {
+/// Connection numbers (device minors) are recycled by the kernel, and several harness processes (and possibly other
+/// FUSE users) run on this machine: a connection is only ever aborted when it is certainly ours -
+///   abort_mounted: the number belongs to a fuse mount at or below our work directory right now;
+///   abort_proven:  one of our threads is provably asleep waiting on that connection (a channel thread inside
+///                  epoll_wait, a client inside a FUSE wait), so the connection and its number are still alive.
+fn minor_mounted_here(minor: u32) -> bool {
+    let mine = match CLEAN_DIR.lock().map(|g| g.clone()).unwrap_or(None) {
+        Some(d) => d,
+        None => return false,
+    };
+    mounts_at(&mine, true).iter().any(|m| m.2 == minor && m.1.starts_with("fuse") && m.1 != "fusectl")
+}
+
+fn abort_raw(minor: u32) -> bool {
     let d = CTL_DIR.lock().map(|g| g.clone()).unwrap_or(None).unwrap_or_else(|| PathBuf::from("/sys/fs/fuse/connections"));
     std::fs::write(d.join(format!("{minor}/abort")), b"1").is_ok()
+}
+
+fn abort_mounted(minor: u32) -> bool {
+    minor_mounted_here(minor) && abort_raw(minor)
+}
+
+fn abort_proven(minor: u32) -> bool {
+    abort_raw(minor)
 }
 
 fn detach(mp: &str) -> i32 {
@@ -279,7 +311,7 @@ fn cleanup_below(dir: &Path) -> usize {
         // top-most first: later lines of mountinfo are mounted later
         for (point, fstype, minor) in ms.iter().rev() {
             if fstype.starts_with("fuse") && fstype != "fusectl" {
-                abort_conn(*minor);
+                abort_raw(*minor); // listed in mountinfo below our directory: ours
             }
             if detach(point) == 0 {
                 n += 1;
@@ -346,6 +378,7 @@ fn err_class(msg: &str) -> &'static str {
         ("fuse session failure: failed to umount", "umount-failed"),
         ("fuse session failure: failed to mount", "mount-failed"),
         ("fuse session failure: stat ", "stat-mountpoint"),
+        ("fuse session failure: fuse session is already mounted", "already-mounted"),
         ("fuse session failure: read new request: ECONNABORTED", "read-ECONNABORTED"),
         ("fuse session failure: read new request", "read-failed"),
         ("fuse session failure: epoll wait", "epoll-failed"),
@@ -474,13 +507,10 @@ fn start_hang_watchdog(dir: PathBuf, main_tid: i64, grace_ms: u64) {
         }
         if asleep && OP_START_MS.load(Ordering::SeqCst) == st {
             OP_HUNG.store(true, Ordering::SeqCst);
-            // every connection of the running history (also lazily detached ones), then whatever is mounted
-            for m in CONN_MINORS.lock().map(|g| g.clone()).unwrap_or_default() {
-                abort_conn(m);
-            }
+            // the caller waits on the mount on top of the mountpoint: everything mounted below our directory
             for m in mounts_at(&dir, true) {
                 if m.1.starts_with("fuse") && m.1 != "fusectl" {
-                    abort_conn(m.2);
+                    abort_raw(m.2);
                 }
             }
             // wait for the call to come back before looking again
@@ -509,6 +539,7 @@ enum Cmd {
 }
 
 struct Worker {
+    minor: u32, // connection (device minor) of the channel's descriptor
     tx: Sender<Cmd>,
     rx: Receiver<Value>,
     tid: i64,
@@ -539,10 +570,11 @@ fn spawn_worker(ch: FuseChannel, server: Arc<Server<Arc<TinyFs>>>) -> Worker {
     });
     let tid = trx.recv().unwrap_or(0);
     WORKER_TIDS.lock().unwrap().push(tid);
-    Worker { tx, rx, tid, busy: false, join: Some(join) }
+    Worker { minor: 0, tx, rx, tid, busy: false, join: Some(join) }
 }
 
 struct Client {
+    minor: u32, // connection mounted on top of the mountpoint when the call started (0: none)
     rx: Receiver<Value>,
     tid: i64,
 }
@@ -563,7 +595,7 @@ fn spawn_client(mp: PathBuf) -> Client {
         rtx.send(v).ok();
     });
     let tid = trx.recv().unwrap_or(0);
-    Client { rx, tid }
+    Client { minor: 0, rx, tid }
 }
 
 struct SeqWorld {
@@ -574,6 +606,8 @@ struct SeqWorld {
     clone: Option<std::fs::File>,
     client: Option<Client>,
     conns: Vec<u32>, // device minors of the connections this history created, in mount order
+    cur_minor: u32,   // connection of the session's fuse file
+    clone_minor: u32, // connection of the clone the harness holds
     base: FdCount,
     leaked_threads: usize,
 }
@@ -657,9 +691,17 @@ impl SeqWorld {
     }
 
     fn finish(&mut self) {
-        // not part of the model: release everything that may still be blocked, then drop
-        for m in &self.conns {
-            abort_conn(*m);
+        // not part of the model: release everything that may still be blocked, then drop. A connection that is not
+        // mounted any more is aborted only if one of our threads provably still waits on it (see abort_proven).
+        for w in self.workers.values() {
+            if w.busy && w.minor != 0 && sleeping_in(w.tid, &SYS_EPOLL, false) {
+                abort_proven(w.minor);
+            }
+        }
+        if let Some(cl) = &self.client {
+            if cl.minor != 0 && waiting_for_fuse(cl.tid) {
+                abort_proven(cl.minor);
+            }
         }
         cleanup_below(&self.mp);
         self.clone = None;
@@ -681,6 +723,8 @@ impl SeqWorld {
             let _ = cl.rx.recv_timeout(Duration::from_secs(5));
         }
         self.conns.clear();
+        self.cur_minor = 0;
+        self.clone_minor = 0;
         WORKER_TIDS.lock().unwrap().clear();
         CONN_MINORS.lock().unwrap().clear();
         if !mounts_at(&self.mp, true).is_empty() {
@@ -706,6 +750,8 @@ fn run_seq(hist_file: &str, trace_file: &str, dir: &Path) {
         clone: None,
         client: None,
         conns: vec![],
+        cur_minor: 0,
+        clone_minor: 0,
         base: fd_count(),
         leaked_threads: 0,
     };
@@ -749,6 +795,7 @@ fn run_seq(hist_file: &str, trace_file: &str, dir: &Path) {
                         // the connection id is the minor of the top-most mount
                         if let Some(m) = mounts_at(&mp, false).last() {
                             w.conns.push(m.2);
+                            w.cur_minor = m.2;
                             CONN_MINORS.lock().unwrap().push(m.2);
                         }
                     } else if r["cls"] == "open-dev-fuse" || r["cls"] == "mount-failed" {
@@ -800,7 +847,8 @@ fn run_seq(hist_file: &str, trace_file: &str, dir: &Path) {
                     let s = w.ses.as_ref().expect("model: session exists");
                     match guarded(|| catch_unwind(AssertUnwindSafe(|| s.new_channel()))) {
                         Ok(Ok(ch)) => {
-                            let wk = spawn_worker(ch, w.server.clone());
+                            let mut wk = spawn_worker(ch, w.server.clone());
+                            wk.minor = w.cur_minor;
                             w.workers.insert(c, wk);
                             json!({"res": "ok"})
                         }
@@ -830,6 +878,7 @@ fn run_seq(hist_file: &str, trace_file: &str, dir: &Path) {
                     let s = w.ses.as_ref().expect("model: session exists");
                     match guarded(|| catch_unwind(AssertUnwindSafe(|| s.clone_fuse_file()))) {
                         Ok(Ok(f)) => {
+                            w.clone_minor = w.cur_minor;
                             w.clone = Some(f);
                             json!({"res": "ok"})
                         }
@@ -843,6 +892,7 @@ fn run_seq(hist_file: &str, trace_file: &str, dir: &Path) {
                 "setf" => {
                     let s = w.ses.as_mut().expect("model: session exists");
                     let f = w.clone.take().expect("model: clone exists");
+                    w.cur_minor = w.clone_minor;
                     match guarded(|| catch_unwind(AssertUnwindSafe(|| s.set_fuse_file(f)))) {
                         Ok(()) => json!({"res": "ok"}),
                         Err(_) => json!({"res": "panic"}),
@@ -863,12 +913,15 @@ fn run_seq(hist_file: &str, trace_file: &str, dir: &Path) {
                     // environment: /sys/fs/fuse/connections/<dev>/abort of the k-th connection of this history
                     let k = op["k"].as_i64().unwrap_or(1) as usize;
                     ev["k"] = json!(k);
-                    let ok = w.conns.get(k - 1).map(|m| abort_conn(*m)).unwrap_or(false);
+                    let ok = w.conns.get(k - 1).map(|m| abort_mounted(*m)).unwrap_or(false);
                     json!({"res": if ok { "ok" } else { "no-entry" }})
                 }
                 "cli" => {
                     assert!(w.client.is_none(), "model: one client at a time");
-                    w.client = Some(spawn_client(mp.clone()));
+                    let top = mounts_at(&mp, false).last().filter(|m| m.1.starts_with("fuse")).map(|m| m.2).unwrap_or(0);
+                    let mut cl = spawn_client(mp.clone());
+                    cl.minor = top;
+                    w.client = Some(cl);
                     json!({"res": "started"})
                 }
                 other => panic!("unknown op {other}"),
@@ -968,6 +1021,7 @@ fn real_main() {
             let seed: u64 = a[4].parse().unwrap();
             let runs: usize = a[5].parse().unwrap();
             let wd_ms: u64 = a.get(6).and_then(|s| s.parse().ok()).unwrap_or(3000);
+            start_hang_watchdog(dir.clone(), gettid(), 5000);
             conc::run(&a[2], &dir, seed, runs, wd_ms);
             cleanup_all(&dir);
         }
@@ -979,9 +1033,391 @@ fn real_main() {
 }
 
 mod conc {
+    //! concurrent runs: channel threads serve TinyFs through Server::handle_message while client threads read
+    //! files on the mountpoint; a controller calls wake() / umount() / new_channel() / mount() at seeded points.
+    //! Every call is logged before it is made (*_call) and after it returned (*_ret), under one lock, so the order
+    //! of the log is consistent with real time.
     use super::*;
-    pub fn run(_trace: &str, _dir: &Path, _seed: u64, _runs: usize, _wd_ms: u64) {
-        let _ = (Rng::new(1), AtomicBool::new(false));
-        unimplemented!()
+    use std::collections::HashMap;
+    use std::sync::RwLock;
+
+    pub struct Log {
+        tr: Trace,
+        seq: HashMap<String, u64>,
+    }
+
+    fn ev(log: &Mutex<Log>, t: &str, v: Value) {
+        let mut g = log.lock().unwrap();
+        let n = {
+            let e = g.seq.entry(t.to_string()).or_insert(0);
+            *e += 1;
+            *e
+        };
+        let base = json!({"t": t, "n": n, "c": 0, "cl": 0, "res": "", "cls": "", "unique": "", "opc": 0, "len": 0, "hlen": 0, "hm": "",
+                          "name": "", "tag": "", "errno": 0, "nmount": 0, "ms": 0, "kind": "", "nfuse": 0, "nevent": 0, "nepoll": 0});
+        let v = merge(base, v);
+        g.tr.emit(&v);
+    }
+
+    struct Chan {
+        c: i64,
+        tid: Arc<AtomicU64>,
+        ingr: Arc<AtomicU64>, // now_ms() at which the thread entered get_request, 0 outside
+        join: Option<std::thread::JoinHandle<()>>,
+    }
+
+    fn spawn_chan(c: i64, ch: FuseChannel, server: Arc<Server<Arc<TinyFs>>>, log: Arc<Mutex<Log>>, served: Arc<AtomicU64>, reenter: bool) -> Chan {
+        let tid = Arc::new(AtomicU64::new(0));
+        let ingr = Arc::new(AtomicU64::new(0));
+        let (tid2, ingr2) = (tid.clone(), ingr.clone());
+        let join = std::thread::spawn(move || {
+            tid2.store(gettid() as u64, Ordering::SeqCst);
+            let t = format!("ch{c}");
+            let mut ch = ch;
+            let mut nones = 0;
+            loop {
+                ev(&log, &t, json!({"e": "gr_call", "c": c}));
+                ingr2.store(now_ms(), Ordering::SeqCst);
+                let v = serve_one(&mut ch, &server, |got| {
+                    ingr2.store(0, Ordering::SeqCst);
+                    ev(&log, &t, merge(json!({"e": "gr_ret", "c": c}), got.clone()));
+                });
+                ingr2.store(0, Ordering::SeqCst);
+                if v["res"] == "some" {
+                    ev(&log, &t, json!({"e": "hm_ret", "c": c, "unique": v["unique"], "opc": v["opc"], "res": v["hm"]}));
+                    served.fetch_add(1, Ordering::SeqCst);
+                    continue;
+                }
+                ev(&log, &t, merge(json!({"e": "gr_ret", "c": c}), v.clone()));
+                if v["res"] == "none" && reenter && nones == 0 {
+                    nones += 1;
+                    continue;
+                }
+                break;
+            }
+            drop(ch);
+            ev(&log, &t, json!({"e": "ch_drop", "c": c}));
+        });
+        Chan { c, tid, ingr, join: Some(join) }
+    }
+
+    fn spawn_client(j: i64, mp: PathBuf, log: Arc<Mutex<Log>>, stop: Arc<AtomicBool>, nops: u64, busy: Arc<AtomicU64>, counter: Arc<AtomicU64>) -> std::thread::JoinHandle<()> {
+        std::thread::spawn(move || {
+            let t = format!("cl{j}");
+            for _ in 0..nops {
+                if stop.load(Ordering::SeqCst) {
+                    break;
+                }
+                let n = counter.fetch_add(1, Ordering::SeqCst);
+                let name = format!("f{n}");
+                ev(&log, &t, json!({"e": "cl_call", "cl": j, "name": name}));
+                busy.store(now_ms(), Ordering::SeqCst);
+                let r = std::fs::read(mp.join(&name));
+                busy.store(0, Ordering::SeqCst);
+                match r {
+                    Ok(data) => {
+                        let tag: String = data.iter().take_while(|b| **b != b':').map(|b| *b as char).collect();
+                        let uniform = data.len() == FILE_SIZE && data == TinyFs::content_of_tag(&tag);
+                        ev(&log, &t, json!({"e": "cl_ret", "cl": j, "name": name, "res": "ok", "tag": if uniform { tag } else { format!("{tag}?mixed") }, "len": data.len()}));
+                    }
+                    Err(e) => {
+                        ev(&log, &t, json!({"e": "cl_ret", "cl": j, "name": name, "res": "err", "errno": e.raw_os_error().unwrap_or(0)}));
+                        break;
+                    }
+                }
+            }
+        })
+    }
+
+    const PLANS: &[&str] = &["wake", "umount-wake", "wake-umount", "umount", "race", "late", "rewake", "remount", "abort", "wake", "late", "race"];
+
+    pub fn run(trace: &str, dir: &Path, seed: u64, runs: usize, wd_ms: u64) {
+        let log = Arc::new(Mutex::new(Log { tr: Trace::create(trace), seq: HashMap::new() }));
+        let mut rng = Rng::new(seed);
+        let mp = dir.join("mnt");
+        std::fs::create_dir_all(&mp).unwrap();
+        let only = std::env::var("SESSION_PLAN").ok();
+        for run in 0..runs {
+            let plan = match &only {
+                Some(p) => p.clone(),
+                None => PLANS[(run + seed as usize) % PLANS.len()].to_string(),
+            };
+            one_run(&log, &mp, &mut rng, run, &plan, wd_ms);
+            log.lock().unwrap().tr.flush();
+            log.lock().unwrap().seq.clear();
+        }
+    }
+
+    fn one_run(log: &Arc<Mutex<Log>>, mp: &Path, rng: &mut Rng, run: usize, plan: &str, wd_ms: u64) {
+        let base = fd_count();
+        let nchan = rng.range(1, 3) as i64;
+        let nclients = rng.range(1, 3) as i64;
+        let nops = rng.range(2, 10);
+        let delay = *rng.pick(&[0u64, 0, 50, 300]);
+        let trigger = rng.range(0, 12);
+        let jitter_us = rng.range(0, 400);
+        ev(log, "main", json!({"e": "Reset", "run": run, "plan": plan, "nchan": nchan, "nclients": nclients, "nops": nops, "delay": delay, "trigger": trigger}));
+        let fs = Arc::new(TinyFs { delay_us: AtomicU64::new(delay) });
+        let server = Arc::new(Server::new(fs.clone()));
+        let mut s = match FuseSession::new(mp, "x03", "", false) {
+            Ok(s) => s,
+            Err(e) => env_fail(&format!("FuseSession::new: {e}")),
+        };
+        ev(log, "main", json!({"e": "mount_call"}));
+        if let Err(e) = s.mount() {
+            env_fail(&format!("mount: {e}"));
+        }
+        let mut minors: Vec<u32> = mounts_at(mp, false).last().map(|m| vec![m.2]).unwrap_or_default();
+        *CONN_MINORS.lock().unwrap() = minors.clone();
+        ev(log, "main", json!({"e": "mount_ret", "res": "ok", "nmount": mounts_at(mp, false).len()}));
+        let ses = Arc::new(RwLock::new(s));
+        let served = Arc::new(AtomicU64::new(0));
+        let reenter = plan == "rewake";
+        let chans: Arc<Mutex<Vec<Chan>>> = Arc::new(Mutex::new(Vec::new()));
+        for c in 1..=nchan {
+            ev(log, "main", json!({"e": "nc_call", "c": c}));
+            match ses.read().unwrap().new_channel() {
+                Ok(ch) => {
+                    ev(log, "main", json!({"e": "nc_ret", "c": c, "res": "ok"}));
+                    chans.lock().unwrap().push(spawn_chan(c, ch, server.clone(), log.clone(), served.clone(), reenter));
+                }
+                Err(e) => env_fail(&format!("new_channel: {e}")),
+            }
+        }
+        // clients
+        let stop = Arc::new(AtomicBool::new(false));
+        let counter = Arc::new(AtomicU64::new(run as u64 * 1000));
+        let mut busy = Vec::new();
+        let mut clients = Vec::new();
+        for j in 1..=nclients {
+            let b = Arc::new(AtomicU64::new(0));
+            busy.push(b.clone());
+            clients.push(spawn_client(j, mp.to_path_buf(), log.clone(), stop.clone(), nops, b, counter.clone()));
+        }
+        // safety net: a client operation that hangs is released by aborting the connection(s)
+        let run_over = Arc::new(AtomicBool::new(false));
+        {
+            let (busy, log, run_over) = (busy.clone(), log.clone(), run_over.clone());
+            std::thread::spawn(move || {
+                while !run_over.load(Ordering::SeqCst) {
+                    std::thread::sleep(Duration::from_millis(100));
+                    let now = now_ms();
+                    if busy.iter().any(|b| {
+                        let t = b.load(Ordering::SeqCst);
+                        t != 0 && now > t + 15_000
+                    }) {
+                        ev(&log, "net", json!({"e": "abort", "kind": "client-timeout"}));
+                        // (already a violation by then) first what is mounted here, then - a client of ours has been
+                        // waiting for 15 s, its connection is alive - the connections of this run
+                        for m in CONN_MINORS.lock().map(|g| g.clone()).unwrap_or_default() {
+                            if !abort_mounted(m) {
+                                abort_proven(m);
+                            }
+                        }
+                        std::thread::sleep(Duration::from_secs(2));
+                    }
+                }
+            });
+        }
+        // trigger: some requests served (or 200 ms), plus a little jitter
+        let t0 = Instant::now();
+        while served.load(Ordering::SeqCst) < trigger && t0.elapsed() < Duration::from_millis(200) {
+            std::thread::sleep(Duration::from_micros(50));
+        }
+        std::thread::sleep(Duration::from_micros(jitter_us));
+
+        let do_wake = |who: &str| {
+            ev(log, who, json!({"e": "wake_call"}));
+            let r = res_unit(catch_unwind(AssertUnwindSafe(|| ses.read().unwrap().wake())));
+            ev(log, who, merge(json!({"e": "wake_ret"}), r));
+        };
+        let do_umount = |who: &str| {
+            ev(log, who, json!({"e": "um_call"}));
+            let r = res_unit(guarded(|| catch_unwind(AssertUnwindSafe(|| ses.write().unwrap().umount()))));
+            ev(log, who, merge(json!({"e": "um_ret", "nmount": mounts_at(mp, false).len()}), r));
+        };
+        // every channel thread that is still inside get_request and provably asleep in epoll_wait `patience` ms
+        // after the last wake/umount returned is reported; threads that are merely slow are waited for
+        let watch = |kind: &str, patience: u64| {
+            let t0 = Instant::now();
+            loop {
+                let all_done = chans.lock().unwrap().iter().all(|c| c.join.as_ref().map(|j| j.is_finished()).unwrap_or(true));
+                if all_done {
+                    return;
+                }
+                if t0.elapsed() >= Duration::from_millis(patience) {
+                    let mut undecided = false;
+                    for c in chans.lock().unwrap().iter() {
+                        if c.join.as_ref().map(|j| j.is_finished()).unwrap_or(true) {
+                            continue;
+                        }
+                        let since = c.ingr.load(Ordering::SeqCst);
+                        if since != 0 && sleeping_in(c.tid.load(Ordering::SeqCst) as i64, &SYS_EPOLL, false) && c.ingr.load(Ordering::SeqCst) == since {
+                            ev(log, "wd", json!({"e": "watchdog", "c": c.c, "kind": kind, "ms": t0.elapsed().as_millis() as u64}));
+                        } else {
+                            undecided = true;
+                        }
+                    }
+                    if !undecided {
+                        return;
+                    }
+                    if t0.elapsed() > Duration::from_secs(30) {
+                        env_fail("a channel thread neither finished nor went to sleep within 30 s");
+                    }
+                }
+                std::thread::sleep(Duration::from_millis(5));
+            }
+        };
+        let clients_idle = |max_ms: u64| {
+            let t0 = Instant::now();
+            while busy.iter().any(|b| b.load(Ordering::SeqCst) != 0) && t0.elapsed() < Duration::from_millis(max_ms) {
+                std::thread::sleep(Duration::from_millis(2));
+            }
+        };
+
+        match plan {
+            "wake" => {
+                do_wake("main");
+                watch("wake", wd_ms);
+                do_umount("main");
+            }
+            "umount-wake" => {
+                do_umount("main");
+                do_wake("main");
+                watch("wake", wd_ms);
+            }
+            "wake-umount" => {
+                do_wake("main");
+                do_umount("main");
+                watch("wake", wd_ms);
+            }
+            "umount" => {
+                stop.store(true, Ordering::SeqCst);
+                do_umount("main");
+                clients_idle(5000);
+                watch("umount", wd_ms);
+                do_wake("main");
+                watch("wake", wd_ms);
+            }
+            "race" => {
+                std::thread::scope(|sc| {
+                    sc.spawn(|| do_wake("ctlA"));
+                    sc.spawn(|| do_umount("ctlB"));
+                });
+                watch("wake", wd_ms);
+            }
+            "late" => {
+                let c = nchan + 1;
+                std::thread::scope(|sc| {
+                    sc.spawn(|| {
+                        ev(log, "ctlB", json!({"e": "nc_call", "c": c}));
+                        match ses.read().unwrap().new_channel() {
+                            Ok(ch) => {
+                                ev(log, "ctlB", json!({"e": "nc_ret", "c": c, "res": "ok"}));
+                                chans.lock().unwrap().push(spawn_chan(c, ch, server.clone(), log.clone(), served.clone(), false));
+                            }
+                            Err(e) => {
+                                let m = e.to_string();
+                                ev(log, "ctlB", json!({"e": "nc_ret", "c": c, "res": "err", "cls": err_class(&m)}));
+                            }
+                        }
+                    });
+                    sc.spawn(|| do_wake("ctlA"));
+                });
+                watch("wake", wd_ms);
+                do_wake("main");
+                watch("wake", wd_ms);
+                do_umount("main");
+            }
+            "rewake" => {
+                do_wake("main");
+                watch("wake", wd_ms);
+                do_wake("main");
+                watch("wake", wd_ms);
+                do_umount("main");
+            }
+            "remount" => {
+                // mount() on the mounted session while the channels are serving
+                ev(log, "main", json!({"e": "mount_call"}));
+                let r = res_unit(guarded(|| catch_unwind(AssertUnwindSafe(|| ses.write().unwrap().mount()))));
+                let hung = OP_HUNG.swap(false, Ordering::SeqCst);
+                if let Some(m) = mounts_at(mp, false).last() {
+                    if !minors.contains(&m.2) {
+                        minors.push(m.2);
+                        CONN_MINORS.lock().unwrap().push(m.2);
+                    }
+                }
+                ev(log, "main", merge(json!({"e": "mount_ret", "nmount": mounts_at(mp, false).len(), "kind": if hung { "hung" } else { "" }}), r));
+                stop.store(true, Ordering::SeqCst);
+                do_umount("main");
+                do_wake("main");
+                watch("wake", wd_ms);
+            }
+            "abort" => {
+                ev(log, "main", json!({"e": "abort", "kind": "fusectl"}));
+                for m in &minors {
+                    abort_mounted(*m);
+                }
+                do_umount("main");
+                watch("umount", wd_ms);
+                do_wake("main");
+                watch("wake", wd_ms);
+            }
+            other => panic!("unknown plan {other}"),
+        }
+        // epilogue (not judged as part of the plan): stop the clients, release whatever is left, drop everything
+        stop.store(true, Ordering::SeqCst);
+        let still: Vec<i64> = chans.lock().unwrap().iter().filter(|c| !c.join.as_ref().map(|j| j.is_finished()).unwrap_or(true)).map(|c| c.c).collect();
+        if !still.is_empty() {
+            ev(log, "main", json!({"e": "abort", "kind": "release"}));
+            // every channel of a run was created on the first connection; a channel thread asleep in epoll_wait
+            // proves that this connection is still alive (and its number still ours)
+            let proven = chans.lock().unwrap().iter().any(|c| {
+                !c.join.as_ref().map(|j| j.is_finished()).unwrap_or(true) && sleeping_in(c.tid.load(Ordering::SeqCst) as i64, &SYS_EPOLL, false)
+            });
+            if proven {
+                abort_proven(minors[0]);
+            }
+            if let Ok(g) = ses.read() {
+                let _ = g.wake();
+            }
+        }
+        let mut leaked = 0;
+        for mut c in std::mem::take(&mut *chans.lock().unwrap()) {
+            let j = c.join.take().unwrap();
+            let t0 = Instant::now();
+            while !j.is_finished() && t0.elapsed() < Duration::from_secs(10) {
+                std::thread::sleep(Duration::from_millis(2));
+            }
+            if j.is_finished() {
+                j.join().ok();
+            } else {
+                leaked += 1;
+            }
+        }
+        drop(ses); // Drop = umount (the session is not shared any more); with the last descriptor the connection goes
+        for c in clients {
+            let t0 = Instant::now();
+            while !c.is_finished() && t0.elapsed() < Duration::from_secs(20) {
+                std::thread::sleep(Duration::from_millis(2));
+            }
+            if c.is_finished() {
+                c.join().ok();
+            } else {
+                leaked += 1;
+            }
+        }
+        run_over.store(true, Ordering::SeqCst);
+        let f = fd_count();
+        ev(log, "main", json!({"e": "end", "nfuse": f.fuse - base.fuse, "nevent": f.event - base.event, "nepoll": f.epoll - base.epoll,
+                               "nmount": mounts_at(mp, false).len(), "kind": if leaked > 0 { "leaked-threads" } else { "" }}));
+        cleanup_below(mp);
+        CONN_MINORS.lock().unwrap().clear();
+        if !mounts_at(mp, true).is_empty() {
+            env_fail("a mount could not be removed after a concurrent run");
+        }
+        if leaked > 0 {
+            env_fail("threads of a concurrent run could not be released");
+        }
     }
 }
